@@ -235,6 +235,8 @@ class CFG:
         self.exit = self.new("exit")
         self.excexit = self.new("excexit")
         self._finallies = []
+        self._reraises = []      # (node, frames, (classes, except node))
+        self.etypes = {}         # (src id, dst id) -> classes flowing along that exceptional edge
         body = func_node.body if isinstance(func_node.body, list) else [ast.Return(value=func_node.body)]
         first = self.block(body, self.exit, [], None, None)
         self.edge(self.entry, first, "next")
@@ -247,7 +249,9 @@ class CFG:
         self.nodes.append(n)
         return n
 
-    def edge(self, a, b, label):
+    def edge(self, a, b, label, types=None):
+        if types:
+            self.etypes.setdefault((a.id, b.id), set()).update(types)
         for (t, l) in a.succ:
             if t is b and l == label:
                 return
@@ -256,12 +260,15 @@ class CFG:
 
     def may_raise(self, node, handler_types):
         r = None
+        if isinstance(node.ast, ast.Raise) and node.ast.exc is None and handler_types is not None \
+                and isinstance(handler_types, tuple):
+            return None     # bare re-raise: routed in _finalize from what flows into the handler
         if self._raises is not None:
             r = self._raises(node.ast, node.kind)
         if r is None:
             r = default_raises(node.ast, node.kind)
-            if r is None:  # bare raise
-                r = set(handler_types) if handler_types else set(GENERIC)
+            if r is None:  # bare raise outside a handler
+                r = set(GENERIC)
         return set(r)
 
     # ------------------------------------------------------------------ exceptional routing
@@ -277,26 +284,26 @@ class CFG:
                         break
                     if classes is None:
                         # unknown handler type: may catch anything, catches nothing for sure
-                        self.edge(node, hnode, "exc")
+                        self.edge(node, hnode, "exc", set(remaining))
                         continue
                     caught = set()
-                    may = False
+                    flow = set()
                     for t in remaining:
                         if any(issubclass(t, h) for h in classes):
                             caught.add(t)
-                            may = True
+                            flow.add(t)
                         elif any(issubclass(h, t) for h in classes):
-                            may = True
-                    if may:
-                        self.edge(node, hnode, "exc")
+                            flow.add(t)
+                    if flow:
+                        self.edge(node, hnode, "exc", flow)
                     remaining -= caught
             if fr.fin is not None and remaining:
                 ent = fr.fin.entry("exc", None)
-                self.edge(node, ent, "exc")
+                self.edge(node, ent, "exc", set(remaining))
                 fr.fin.exc_types |= remaining
                 return
         if remaining:
-            self.edge(node, self.excexit, "exc")
+            self.edge(node, self.excexit, "exc", set(remaining))
 
     def _finalize(self):
         # finally copies entered exceptionally continue outward with the accumulated types;
@@ -304,8 +311,27 @@ class CFG:
         # until no change)
         changed = True
         done = {}
+        rr_done = {}
         while changed:
             changed = False
+            for (node, frames, (classes, hnode)) in list(self._reraises):
+                incoming = set()
+                for p, l in hnode.pred:
+                    incoming |= self.etypes.get((p.id, hnode.id), set())
+                narrowed = set()
+                for t in incoming:
+                    if classes is None or any(issubclass(t, h) for h in classes):
+                        narrowed.add(t)
+                    else:
+                        for h in classes:
+                            if issubclass(h, t):
+                                narrowed.add(h)
+                prev = rr_done.get(node.id, set())
+                if narrowed - prev:
+                    rr_done[node.id] = prev | narrowed
+                    node.raises |= narrowed
+                    self.route_exc(node, narrowed - prev, frames)
+                    changed = True
             for fin in list(self._finallies):
                 if fin.exc_tail is None:
                     continue
@@ -361,6 +387,9 @@ class CFG:
         if nxt is not None:
             self.edge(n, nxt, "next")
         r = self.may_raise(n, handler_types)
+        if r is None:
+            self._reraises.append((n, frames, handler_types))
+            return n
         n.raises = r
         if r:
             self.route_exc(n, r, frames)
@@ -389,7 +418,7 @@ class CFG:
             body = self.block(st.body, fn, frames, (nxt, fn, len(frames)), handler_types, mark)
             self.edge(fn, body, "true")
             self.edge(fn, after, "false")
-            fn.raises = self.may_raise(fn, handler_types)
+            fn.raises = self.may_raise(fn, handler_types) or set()
             if fn.raises:
                 self.route_exc(fn, fn.raises, frames)
             return it
@@ -447,7 +476,7 @@ class CFG:
             return n
         self.edge(n, t, "true")
         self.edge(n, f, "false")
-        n.raises = self.may_raise(n, handler_types)
+        n.raises = self.may_raise(n, handler_types) or set()
         if n.raises:
             self.route_exc(n, n.raises, frames)
         return n
@@ -470,7 +499,7 @@ class CFG:
             classes = X.get(h.type)
             hn = self.new("except", h)
             hn.cont = mark
-            body = self.block(h.body, after, base, loop, classes if classes else [Exception], mark)
+            body = self.block(h.body, after, base, loop, (classes, hn), mark)
             self.edge(hn, body, "next")
             hl.append((classes, hn))
         orelse = self.block(st.orelse, after, base, loop, handler_types, mark) if st.orelse else after
@@ -490,7 +519,7 @@ class CFG:
         ent = self.new("with_enter", item.context_expr, owner=st)
         ent.cont = mark
         self.edge(ent, body, "next")
-        ent.raises = self.may_raise(ent, handler_types)
+        ent.raises = self.may_raise(ent, handler_types) or set()
         if ent.raises:
             self.route_exc(ent, ent.raises, frames)
         return ent
